@@ -10,7 +10,6 @@ import (
 	"encoding/hex"
 	"encoding/json"
 	"fmt"
-	"math/bits"
 	"strconv"
 	"strings"
 
@@ -42,19 +41,27 @@ type input struct {
 	Probe   []int    `json:"probe"`
 	MaxFull int      `json:"maxfull"`
 	Kind    []string `json:"kind"`
+	Big     *bigIn   `json:"big,omitempty"`
+}
+
+// bigIn is the large-table stage: >= 4096 old buckets during a growth, so that the 1024-bucket window of
+// advanceEvacuationMark matters.  Key id k gets a real key whose xxh3 (under Seed) has low Bits bits equal to
+// those of k; the Coq side gets this closed form plus the top bytes, and range operations.
+type bigIn struct {
+	Seed    uint64 `json:"seed"`
+	KeySeed uint64 `json:"keyseed"`
+	Hint    int    `json:"hint"`
+	Bits    int    `json:"bits"`
+	Fill    int    `json:"fill"`
+	Pattern string `json:"pattern"` // adv | uni
 }
 
 // ---------------------------------------------------------------- digest (mirrors Corr.v)
 
-const p61 = (uint64(1) << 61) - 1
+const m61 = (uint64(1) << 61) - 1
 
-func mix(h, x uint64) uint64 {
-	hi, lo := bits.Mul64(h, 1099511628211)
-	lo, c := bits.Add64(lo, x%p61, 0)
-	hi += c
-	_, r := bits.Div64(hi, lo, p61)
-	return r
-}
+func mix(h, x uint64) uint64 { return (h*1000003 + x) & m61 }
+func fv(x uint64) uint64     { return x&m61 + x>>61 }
 
 type world struct {
 	keys  [][]byte
@@ -85,7 +92,7 @@ func (w *world) scribble() {
 }
 
 func digVal(h uint64, v hashmap.Val) uint64 {
-	return mix(mix(mix(mix(h, v.BytesRcvd), v.BytesSent), v.PacketsRcvd), v.PacketsSent)
+	return mix(mix(h, fv(v.BytesRcvd)+3*fv(v.BytesSent)), fv(v.PacketsRcvd)+3*fv(v.PacketsSent))
 }
 
 func (w *world) digTable(h uint64, t [][]hashmap.VerifCell) uint64 {
@@ -99,7 +106,7 @@ func (w *world) digTable(h uint64, t [][]hashmap.VerifCell) uint64 {
 				case top == 0 || top == 1 || top == 4:
 					h = mix(h, top)
 				default:
-					h = digVal(mix(mix(h, top), w.id(c.Keys[i])), c.Vals[i])
+					h = digVal(mix(h, top+256*w.id(c.Keys[i])), c.Vals[i])
 				}
 			}
 		}
@@ -236,6 +243,9 @@ func run(raw json.RawMessage, opt vhlib.Opts) (*vhlib.Case, error) {
 	var in input
 	if err := json.Unmarshal(raw, &in); err != nil {
 		return nil, err
+	}
+	if in.Big != nil {
+		return runBig(in.Big)
 	}
 	w := &world{byKey: map[string]int{}, buf: make([]byte, 64)}
 	for i, hx := range in.Keys {
@@ -681,6 +691,13 @@ func gen(r *vhlib.Rand, i int, o vhlib.Opts) any {
 	if in := fixed(i, r); in != nil {
 		return in
 	}
+	// large-table stage: one adversarial case in every tier, more patterns / seeds outside the quick tier
+	if i == 17 || (o.Tier != "quick" || o.Search) && (i == 19 || i == 21) {
+		return input{Big: &bigIn{Seed: r.U64() | 1, KeySeed: r.U64(), Hint: 20000, Bits: 13, Fill: 26624, Pattern: "adv"}}
+	}
+	if (o.Tier != "quick" || o.Search) && i == 18 {
+		return input{Big: &bigIn{Seed: r.U64() | 1, KeySeed: r.U64(), Hint: 0, Bits: 13, Fill: 26624, Pattern: "uni"}}
+	}
 	p := plan{kind: vhlib.Pick(r, []string{"v4", "v4", "v6", "v4ext", "v6ext", "mixed"}),
 		cluster: vhlib.Pick(r, []string{"uniform", "uniform", "low", "split", "top"}),
 		hint:    vhlib.Pick(r, []int{0, 0, 0, 0, 0, 1, 8, 9, 14, 27, 100, 1000}),
@@ -713,6 +730,134 @@ func gen(r *vhlib.Rand, i int, o vhlib.Opts) any {
 		p.clears = 1 + r.Intn(2)
 	}
 	return build(r, p)
+}
+
+// runBig: fill a table of 4096 buckets to the load factor, start the growth 4096 -> 8192, then
+//
+//	adv: write to the old buckets 2048, 2047, ... 1025 in descending order (each write evacuates its bucket
+//	     and the bucket at the mark), so that a run of 1024 consecutive evacuated buckets lies right ahead of
+//	     the mark when the mark reaches it, with 2046 old buckets behind the run still unevacuated;
+//	uni: keep inserting fresh keys until the growth is over.
+func runBig(b *bigIn) (*vhlib.Case, error) {
+	if b.Bits < 8 || b.Bits > 16 || b.Fill < 100 || b.Fill > 60000 {
+		return nil, fmt.Errorf("bad big parameters")
+	}
+	mask := uint64(1)<<b.Bits - 1
+	extra := 60
+	if b.Pattern == "uni" {
+		extra = 4400
+	}
+	n := b.Fill + 1 + extra + 4 // ids 1..n ; the last 4 are never inserted
+	m := newMap(b.Hint, b.Seed)
+	w := &world{byKey: map[string]int{}, buf: make([]byte, 64), keys: make([][]byte, n)}
+	// ids waiting for a key, per residue
+	need := make([][]int, mask+1)
+	for id := n; id >= 1; id-- {
+		need[uint64(id)&mask] = append(need[uint64(id)&mask], id)
+	}
+	kr := vhlib.NewRand(b.KeySeed)
+	tops := make([]byte, n)
+	for left := n; left > 0; {
+		var s, d [4]byte
+		x, y := kr.U64(), kr.U64()
+		for i := 0; i < 4; i++ {
+			s[i], d[i] = byte(x>>(8*i)), byte(x>>(32+8*i))
+		}
+		k := []byte(types.NewV4KeyStatic(s, d, []byte{byte(y), byte(y >> 8)}, byte(y>>16)))
+		h := hashmap.VerifHash(m, k)
+		q := need[h&mask]
+		if len(q) == 0 {
+			continue
+		}
+		if _, dup := w.byKey[string(k)]; dup {
+			continue
+		}
+		id := q[len(q)-1]
+		need[h&mask] = q[:len(q)-1]
+		w.keys[id-1], w.byKey[string(k)], tops[id-1] = k, id, byte(h>>56)
+		left--
+	}
+	one := [4]uint64{1, 0, 0, 0}
+	var ops []string
+	tags := []string{"big-table", "pattern:" + b.Pattern, "keys:v4", "ops>300"}
+	panicked, pmsg := false, ""
+	var last obsOut
+	nchk, sawWindow := 0, false
+	upd := func(id int) {
+		m.SetOrUpdate(w.arg(id), 1, 0, 0, 0)
+		w.scribble()
+	}
+	rng := func(k0, cnt int, down bool) {
+		if panicked {
+			return
+		}
+		ops = append(ops, "OR "+strconv.Itoa(k0)+" "+strconv.Itoa(cnt)+" "+vhlib.CoqBool(down)+" ("+coqV4(one)+")")
+		panicked, pmsg = vhlib.Recover(func() {
+			for i, id := 0, k0; i < cnt; i++ {
+				upd(id)
+				if down {
+					id--
+				} else {
+					id++
+				}
+			}
+		})
+	}
+	probes := []int{3000, 4000, 8191, 6145, 5, 1025, 2049, b.Fill + 1, b.Fill, n, n - 1}
+	chk := func() {
+		if panicked {
+			return
+		}
+		var s string
+		var o obsOut
+		if pk, msg := vhlib.Recover(func() { s, o = w.observe(m, probes, false) }); pk {
+			panicked, pmsg = true, "observation: "+msg
+			return
+		}
+		ops = append(ops, s)
+		last = o
+		nchk++
+		if o.Old >= 2048 && o.NEvac > 1024 && o.NEvac < o.Old {
+			sawWindow = true
+		}
+	}
+	rng(1, b.Fill, false)
+	chk()
+	rng(b.Fill+1, 1, false) // starts the growth
+	switch b.Pattern {
+	case "adv":
+		rng(2048, 1020, true)
+		chk()
+		rng(1028, 3, true)
+		rng(1025, 1, true) // the mark runs over the 1024 evacuated buckets 1025..2048 and must stop at 2049
+		chk()
+		rng(3000, 1, false)
+		rng(b.Fill+2, extra-1, false)
+		chk()
+	default:
+		rng(b.Fill+2, 2000, false)
+		chk()
+		rng(b.Fill+2002, extra-2001, false)
+		chk()
+	}
+	if panicked {
+		tags = append(tags, "panic")
+	}
+	if sawWindow {
+		tags = append(tags, "mark-crossed-1024-run")
+	}
+	hexs := hex.EncodeToString(tops)
+	var chunks []string
+	for i := 0; i < len(hexs); i += 1024 { // chunked: one 50k-character literal overflows coqc's stack
+		chunks = append(chunks, "\""+hexs[i:min(i+1024, len(hexs))]+"\"%string")
+	}
+	coq := "CaseBig " + strconv.Itoa(b.Hint) + " " + strconv.Itoa(b.Bits) + " " + vhlib.CoqList(chunks) + " " +
+		vhlib.CoqList(ops) + " " + vhlib.CoqBool(panicked)
+	obs := map[string]any{"final": last, "checkpoints": nchk, "mark_crossed_1024_run": sawWindow}
+	if panicked {
+		obs["panic"] = pmsg
+	}
+	return &vhlib.Case{Observed: obs, Tags: tags, Nontrivial: true, Coq: coq}, nil
 }
 
 func main() { vhlib.Main(gen, run) }
